@@ -26,8 +26,11 @@ class G:
     def __init__(self, rng, info):
         self.rng = rng
         self.info = info
-        self.sigs = sorted(info['signals'])
+        self.sigs = sorted(x for x in info['signals'] if x != 'top.kx')      # top.kx is used as an array index only
         self.vars = ['n', 'm', 'acc', 'k']
+        # names that are a loop variable in one statement and an ordinary (pre-defined by emit) variable in another
+        self.xvars = ['w', 'u']
+        self.xassigned = set()
 
     def arith(self, depth, locals_=()):
         rng = self.rng
@@ -57,6 +60,11 @@ class G:
     def stmt(self, depth, locals_=()):
         rng = self.rng
         r = rng.random()
+        free_x = [x for x in self.xvars if x not in locals_]
+        if r < 0.08 and free_x:
+            x = rng.choice(free_x)
+            self.xassigned.add(x)
+            return ('assign', x, self.arith(1, locals_))
         if r < 0.3:
             return ('assign', rng.choice(self.vars), self.arith(2, locals_))
         if r < 0.5:
@@ -65,9 +73,11 @@ class G:
             return ('if', self.cond(1), [self.stmt(depth - 1, locals_)], [self.stmt(depth - 1, locals_)] if rng.random() < 0.6 else None)
         if r < 0.72 and depth > 0:
             v = 'e%d' % depth
+            if free_x and rng.random() < 0.4:
+                v = rng.choice(free_x)
             return ('forin', v, [rng.randrange(0, 5) for _ in range(rng.randrange(0, 4))], [self.stmt(depth - 1, tuple(locals_) + (v,))])
         if r < 0.82:
-            return ('aset', 'arr', rng.choice(['"a"', '"b"', 'key']), self.arith(1, locals_))
+            return ('aset', 'arr', rng.choice(['"a"', '"b"', 'key', 'top.kx']), self.arith(1, locals_))
         if r < 0.9:
             return ('aget', rng.choice(self.vars), 'arr', rng.choice(['"a"', '"b"', 'key']))
         return ('print', [rng.choice([('str', rng.choice(['x=', 'a b', 't\\t', 'q\\"q', 'nl\\n', '', 'bs\\\\\\"q', 'e\\\\', 'C:\\\\temp', '\\\\n', 'x\\\\ry\\\\\\"'])), self.arith(1, locals_)]) for _ in range(rng.randrange(1, 4))])
@@ -93,6 +103,8 @@ class G:
         end = [('print', [('str', 'n='), ('var', 'n'), ('str', ' m='), ('var', 'm'), ('str', ' acc='), ('var', 'acc'), ('str', ' k='), ('var', 'k')])]
         if rng.random() < 0.4:
             end.append(('print', [('str', 'arr.a='), ('agetx', 'arr', '"a"')]))
+        for x in sorted(self.xassigned):
+            end.append(('print', [('str', x + '='), ('var', x)]))
         return begin, stmts, end
 
 
@@ -187,6 +199,8 @@ class AwkRef:
     def key(self, k, loc):
         if k.startswith('"'):
             return k.strip('"')
+        if k in self.info['signals']:
+            return str(self.info['signals'][k][self.idx])
         v = loc[k] if k in loc else self.vars.get(k, 0)
         return str(v)
 
@@ -393,7 +407,7 @@ def run(tier, seed, replay=None):
     n = 150 if tier == 'quick' else 4000
     cases = []
     for c in range(n):
-        vcd, info = gen.simple_trace(rng, n=rng.randrange(1, 7), scopes={'top': ['clk', 'a', 'b']})
+        vcd, info = gen.simple_trace(rng, n=rng.randrange(1, 7), scopes={'top': ['clk', 'a', 'b', 'kx']})
         g = G(rng, info)
         prog = g.program()
         src = render(prog)
